@@ -53,7 +53,69 @@ def emitters_no_fs():
     return checked, failed, "identifier tokens (outside #[cfg(test)] mods) of each file intersected with " + ",".join(sorted(FS_NAMES))
 
 
-SCANS = {"emitters_no_fs": emitters_no_fs}
+# ---------------------------------------------------------------------------------------------------------------- file_lines guards
+EFFECTS = {"push_rewrite", "push_str", "push_skipped_with_span", "format_missing", "format_missing_with_indent", "format_missing_no_indent",
+           "rewrite", "rewrite_result", "visit_attrs", "write_snippet", "contains_skip", "visit_block", "push_rewrite_inner"}
+GUARD_SITES = [
+    # (file, selector below the file, guard macro, argument tokens, what the function does)
+    ("src/visitor.rs", "impl FmtVisitor :: fn visit_item", "skip_out_of_file_lines_range_visitor", "self , item . span", "every item"),
+    ("src/visitor.rs", "impl FmtVisitor :: fn visit_assoc_item", "skip_out_of_file_lines_range_visitor", "self , ai . span", "every trait / impl item"),
+    ("src/visitor.rs", "impl FmtVisitor :: fn visit_mac", "skip_out_of_file_lines_range_visitor", "self , mac . span ( )", "every macro call in item or statement position"),
+    ("src/expr.rs", "fn format_expr", "skip_out_of_file_lines_range_err", "context , expr . span", "every expression"),
+    ("src/stmt.rs", "fn format_stmt", "skip_out_of_file_lines_range_err", "context , stmt . span ( )", "every statement"),
+    ("src/items.rs", "impl Rewrite for ast::Local :: fn rewrite_result", "skip_out_of_file_lines_range_err", "context , self . span", "every let statement"),
+]
+GUARD_MACROS = {
+    "out_of_file_lines_range": "( $ self : ident , $ span : expr ) => { ! $ self . config . file_lines ( ) . is_all ( ) && ! $ self . config . file_lines ( ) . intersects ( & $ self . psess . lookup_line_range ( $ span ) ) } ;",
+    "skip_out_of_file_lines_range_err": "( $ self : ident , $ span : expr ) => { if out_of_file_lines_range ! ( $ self , $ span ) { return Err ( RewriteError :: SkipFormatting ) ; } } ;",
+    "skip_out_of_file_lines_range_visitor": "( $ self : ident , $ span : expr ) => { if out_of_file_lines_range ! ( $ self , $ span ) { $ self . push_rewrite ( $ span , None ) ; return ; } } ;",
+}
+
+
+def file_lines_guards():
+    """C17 ("every top-level item, and every statement of a selected function, whose lines do not intersect a selected range is emitted byte
+    for byte"): each rewriting entry point consults the file_lines guard BEFORE it rewrites, visits attributes or pushes anything, with the span
+    of the node it is about to handle; the three guard macros have their canonical bodies (copy the span verbatim / return SkipFormatting)."""
+    from .extract import select
+    failed, checked = [], []
+    ob = "frame scan file_lines_guards: %s consults the file_lines guard, with the span of the node it handles, before it rewrites or emits anything"
+    for f, sel, macro, args, what in GUARD_SITES:
+        sf, it = select(f + " :: " + sel)           # LostAnchor -> UNDECIDED (the function is gone or renamed)
+        br = it.body_range()
+        if br is None: raise LostAnchor("fn without body: " + sel)
+        body = [(i, t) for i, t in enumerate(sf.toks) if br[0] < i < br[1] and t.kind not in TRIVIA]
+        texts = [t.text for _, t in body]
+        want = [macro, "!", "("] + args.split() + [")", ";"]
+        pos = next((k for k in range(len(texts) - len(want) + 1) if texts[k:k + len(want)] == want), None)
+        site = "%s :: %s" % (f, sel)
+        checked.append(site)
+        name = sel.split("fn ")[-1]
+        if pos is None:
+            failed.append({"obligation": ob % name, "function": site, "kind": "frame scan hit", "input": "%s (line %d)" % (site, sf.line_of(it.core)),
+                           "detail": "the function handles %s but holds no `%s!(%s)`: nodes outside the --file-lines selection are no longer copied verbatim" % (what, macro, args.replace(" ", ""))})
+            continue
+        # nothing that rewrites or emits may come first (debug!/trace! calls and plain lets are fine)
+        early = [t for t in texts[:pos] if t in EFFECTS]
+        if early:
+            failed.append({"obligation": ob % name, "function": site, "kind": "frame scan hit", "input": "%s (line %d)" % (site, sf.line_of(body[pos][0])),
+                           "detail": "`%s` is used before the guard" % early[0]})
+    # the macros themselves
+    sfu = SourceFile.get("src/utils.rs")
+    for name, canon in GUARD_MACROS.items():
+        it = next((x for x in sfu.items if x.kind == "macro_rules" and x.name == name), None)
+        if it is None: raise LostAnchor("macro %s not found in src/utils.rs" % name)
+        br = it.body_range()
+        texts = [t.text for i, t in enumerate(sfu.toks) if br[0] < i < br[1] and t.kind not in TRIVIA]
+        checked.append("src/utils.rs :: macro " + name)
+        if " ".join(texts) != canon:
+            # a form the scan cannot classify is not an alarm
+            raise LostAnchor("macro %s has a body the scan cannot classify: %s" % (name, " ".join(texts)[:200]))
+    rule = ("each of the %d rewriting entry points holds its guard macro call with the span of the node it handles, and none of %s occurs in the body before it; "
+            "the three guard macros have their canonical bodies (else UNDECIDED)" % (len(GUARD_SITES), ",".join(sorted(EFFECTS))))
+    return checked, failed, rule
+
+
+SCANS = {"file_lines_guards": file_lines_guards, "emitters_no_fs": emitters_no_fs}
 
 
 def run_scan(unit_id, name):
